@@ -78,6 +78,10 @@ pub struct E1<'c> {
     pub mixed_cycle_seen: bool,
     /// key ids of memos validated (not executed) in a step in which a cycle iterated (per revision)
     pub validated_during_iteration: std::collections::BTreeSet<u64>,
+    /// C26: last (ident, t0, t1) each struct id was created with, across steps
+    pub ts_created: std::collections::HashMap<u64, (u32, u32, u32)>,
+    /// C26: after a restore, a struct id was created again with other field values
+    pub ts_changed_after_restore: bool,
     pub past_vals: Vec<Vec<u32>>,
     /// nodes that, in some world of this run in which a request was made, reached a block member
     /// that reads untracked state and lies on (or reaches) a cycle
@@ -161,7 +165,7 @@ impl<'c> E1<'c> {
         fault::MASK.store(case.fault_mask, SeqCst);
         let db = SimDatabase::new(&case.prog, &world);
         let oracles = crate::oracles::for_case(case);
-        E1 { case, db: Some(db), world, out: RunOut::default(), step: 0, never: Default::default(), oracles, queries: 0, cycle_panicked_in_rev: false, fb_defect_seen: false, injected_now: false, poisoned_now: false, injected_in_rev: false, last_fault_cb: None, stop_run: false, restored_ts_stale: false, held: vec![], spec_readers: Default::default(), spec_reader_defect_seen: false, bad_converged_seen: false, mixed_cycle_seen: false, validated_during_iteration: Default::default(), past_vals: vec![], memo_snapshots: vec![], untracked_cycle_reach: Default::default() }
+        E1 { case, db: Some(db), world, out: RunOut::default(), step: 0, never: Default::default(), oracles, queries: 0, cycle_panicked_in_rev: false, fb_defect_seen: false, injected_now: false, poisoned_now: false, injected_in_rev: false, last_fault_cb: None, stop_run: false, restored_ts_stale: false, held: vec![], spec_readers: Default::default(), spec_reader_defect_seen: false, ts_created: Default::default(), ts_changed_after_restore: false, bad_converged_seen: false, mixed_cycle_seen: false, validated_during_iteration: Default::default(), past_vals: vec![], memo_snapshots: vec![], untracked_cycle_reach: Default::default() }
     }
 
     fn db(&self) -> &SimDatabase {
@@ -214,17 +218,28 @@ impl<'c> E1<'c> {
         let evs = self.db().shared.take_log();
         self.track_spec_readers(&evs);
         self.note_validations(&evs);
-        if self.out.stats.get("restores").copied().unwrap_or(0) > 0 && !self.restored_ts_stale {
+        let restored_already = self.out.stats.get("restores").copied().unwrap_or(0) > 0;
+        if !restored_already {
+            for ev in &evs {
+                if let Ev::NewTs { id, ident, t0, t1, .. } = ev {
+                    self.ts_created.insert(*id, (*ident, *t0, *t1));
+                }
+            }
+        }
+        if restored_already && !self.restored_ts_stale {
             // evidence of the recorded C26 finding can appear in a step whose own result happens
             // to be right: a struct (re-)created with one field value and read back with another
-            let mut last: std::collections::HashMap<u64, (u32, u32, u32)> = Default::default();
             for ev in &evs {
                 match ev {
                     Ev::NewTs { id, ident, t0, t1, .. } => {
-                        last.insert(*id, (*ident, *t0, *t1));
+                        if let Some(old) = self.ts_created.insert(*id, (*ident, *t0, *t1)) {
+                            if old != (*ident, *t0, *t1) {
+                                self.ts_changed_after_restore = true;
+                            }
+                        }
                     }
                     Ev::RdTs { id, f, v } => {
-                        if let Some((ident, t0, t1)) = last.get(id) {
+                        if let Some((ident, t0, t1)) = self.ts_created.get(id) {
                             if (*f == 0 && v != ident) || (*f == 1 && v != t0) || (*f == 2 && v != t1) {
                                 self.restored_ts_stale = true;
                             }
@@ -417,7 +432,7 @@ impl<'c> E1<'c> {
                         // of a tracked field and read back with another
                         let stale_field_seen = restored && {
                             let log = self.db().shared.log.lock().unwrap();
-                            let mut last: std::collections::HashMap<u64, (u32, u32, u32)> = Default::default();
+                            let mut last: std::collections::HashMap<u64, (u32, u32, u32)> = self.ts_created.clone();
                             let mut bad = false;
                             for ev in log.iter() {
                                 match ev {
@@ -436,7 +451,14 @@ impl<'c> E1<'c> {
                             }
                             bad
                         };
-                        if restored && (e.ts != g.ts || self.restored_ts_stale || stale_field_seen) {
+                        // (also: the current step re-created a struct with other field values while a
+                        // reader of struct fields was validated)
+                        let changed_now = restored && {
+                            let log = self.db().shared.log.lock().unwrap();
+                            log.iter().any(|ev| matches!(ev, Ev::NewTs { id, ident, t0, t1, .. } if self.ts_created.get(id).is_some_and(|o| *o != (*ident, *t0, *t1))))
+                        };
+                        let reads_structs = prog.nodes.iter().any(|x| x.ops.iter().any(|o| matches!(o, Op::ReadTs { .. } | Op::CallOnTs { .. })));
+                        if restored && (e.ts != g.ts || self.restored_ts_stale || stale_field_seen || ((changed_now || self.ts_changed_after_restore) && reads_structs)) {
                             // recorded finding (C26): serialization marks every tracked struct as
                             // updated in the current revision, so a creator re-executed in that
                             // revision skips updating the struct's fields
